@@ -82,6 +82,14 @@ def model_apply(m: Model, op):
     k = op[0]
     rows = m.rows
     L = m.L
+    if k == "chain":
+        # several view operations in a row, counted as one step of a history (reaches rc > slice > rc at the depth bound)
+        cur = m
+        for sub in op[1]:
+            cur = model_apply(cur, tuple(sub))
+            if not isinstance(cur, Model):
+                return cur
+        return cur
     if k == "slice":
         return Model({n: s[op[1] : op[2]] for n, s in rows.items()}, m.mol)
     if k == "int":
@@ -157,6 +165,11 @@ def real_apply(aln, op, mol):
         return aln[op[1] : op[2]]
     if k == "int":
         return aln[op[1]]
+    if k == "chain":
+        cur = aln
+        for sub in op[1]:
+            cur = real_apply(cur, tuple(sub), mol)
+        return cur
     if k == "rc":
         return aln.rc()
     if k == "take_positions":
@@ -221,6 +234,9 @@ def alphabet(m: Model):
     for i in range(-(L + 1), L + 1):
         ops.append(("int", i))
     if m.mol in ("dna", "rna"):
+        for kk in range(1, L):
+            ops.append(("chain", (("rc",), ("slice", kk, None), ("rc",))))
+            ops.append(("chain", (("rc",), ("slice", None, kk), ("rc",))))
         ops.append(("rc",))
         ops.append(("to_dna",))
         ops.append(("to_rna",))
@@ -385,6 +401,11 @@ READ_ONLY = [
     ("get_lengths", lambda a: a.get_lengths()),
     ("get_lengths(allow_gap)", lambda a: a.get_lengths(allow_gap=True, include_ambiguity=True)),
     ("degap", lambda a: a.degap().to_dict()),
+    # the degapped collection and the single sequences are objects of their own, built from the rows' (possibly reversed) views
+    ("degap().counts_per_seq", lambda a: a.degap().counts_per_seq()),
+    ("degap().get_motif_probs", lambda a: a.degap().get_motif_probs()),
+    ("get_seq(n).counts", lambda a: {n: dict(a.get_seq(n).counts()) for n in a.names}),
+    ("get_gapped_seq(n).counts(allow_gap)", lambda a: {n: dict(a.get_gapped_seq(n).counts(allow_gap=True, include_ambiguity=True)) for n in a.names}),
     ("num_seqs", lambda a: a.num_seqs),
     ("get_ambiguous_positions", lambda a: a.get_ambiguous_positions()),
     ("iter_positions", lambda a: [[str(c) for c in col] for col in a.iter_positions()]),
